@@ -1,4 +1,5 @@
 import GrogModel.Remote
+import GrogModel.RemotePath
 namespace Grog.Remote
 open Grog
 open Grog.Store (NS Res Pid Digest)
@@ -111,3 +112,30 @@ theorem rinv_run {s s' : State} (h : RInv s) (es : List Ev) (hr : run .fixed s e
     | some s1 => simp only [hst] at hr; exact ih (rinv_step h e hst) hr
 
 end Grog.Remote
+
+namespace Grog.RemotePath
+open Grog
+
+theorem split_at_sep {α : Type} {c : α} : ∀ (u v x y : List α), c ∉ u → c ∉ v → u ++ c :: x = v ++ c :: y → u = v ∧ x = y
+  | [], [], x, y, _, _, h => by simpa using h
+  | [], d :: v, x, y, _, hv, h => by
+    simp only [List.nil_append, List.cons_append, List.cons.injEq] at h
+    exact absurd (h.1 ▸ List.mem_cons_self) hv
+  | d :: u, [], x, y, hu, _, h => by
+    simp only [List.nil_append, List.cons_append, List.cons.injEq] at h
+    exact absurd (h.1 ▸ List.mem_cons_self) hu
+  | d :: u, e :: v, x, y, hu, hv, h => by
+    simp only [List.cons_append, List.cons.injEq] at h
+    obtain ⟨h1, h2⟩ := h
+    have := split_at_sep u v x y (fun hm => hu (List.mem_cons_of_mem _ hm)) (fun hm => hv (List.mem_cons_of_mem _ hm)) h2
+    exact ⟨by rw [h1, this.1], this.2⟩
+
+/-- `p ++ "/" ++ w` determines `p` and `w` when `w` has no slash -/
+theorem split_last {p1 p2 w1 w2 : Bytes} (h1 : cSlash ∉ w1) (h2 : cSlash ∉ w2)
+    (h : p1 ++ [cSlash] ++ w1 = p2 ++ [cSlash] ++ w2) : p1 = p2 ∧ w1 = w2 := by
+  have hr := congrArg List.reverse h
+  simp only [List.reverse_append, List.reverse_cons, List.append_assoc, List.singleton_append] at hr
+  have := split_at_sep (c := cSlash) w1.reverse w2.reverse p1.reverse p2.reverse (by simpa using h1) (by simpa using h2) hr
+  exact ⟨List.reverse_inj.mp this.2, List.reverse_inj.mp this.1⟩
+
+end Grog.RemotePath
